@@ -21,6 +21,21 @@ func c15Oracle(sp *Spec, x *X, res *mcrt.Result) (string, string) {
 	if sp.Notifier && len(x.Notified) != 1 {
 		return "notifier-count", fmt.Sprintf("shutdown notifier delivered %d values", len(x.Notified))
 	}
+	if ids, ok := notifiedIDs(x); ok && sp.Notifier {
+		// the error ends the container; it removes no bar other than (possibly) the failing one
+		for b, bs := range sp.Bars {
+			if _, _, added := addRet(x, b); !added || removable(sp, x, b) || bs.FillErrAt > 0 || bs.ExtErrAt > 0 {
+				continue
+			}
+			found := false
+			for _, id := range ids {
+				found = found || id == b
+			}
+			if !found {
+				return "notifier-missing-bar", fmt.Sprintf("bar %d was never removed, yet the shutdown notifier lists only %v", b, ids)
+			}
+		}
+	}
 	if x.FaultStep == 0 {
 		// the fault site was not reached (all bars finished first): nothing to check beyond termination
 		if x.Debug.Len() != 0 {
@@ -80,7 +95,7 @@ func c15Programs(tier string) ([]*Spec, [][]string) {
 						if site == "write" && fb == 1 {
 							continue
 						}
-						sp := &Spec{Name: fmt.Sprintf("c15-%s@%d-%s-n%d-f%d", site, k, layout, n, fb), Refresh: rf, Q: -1}
+						sp := &Spec{Name: fmt.Sprintf("c15-%s@%d-%s-n%d-f%d", site, k, layout, n, fb), Refresh: rf, Q: -1, Notifier: true}
 						for i := 0; i < n; i++ {
 							bs := BarSpec{Total: 5}
 							switch layout {
@@ -132,7 +147,7 @@ func c15Programs(tier string) ([]*Spec, [][]string) {
 	// the debug output option given as nil (documented to mean: discard)
 	for _, rf := range []string{"auto", "manual"} {
 		for _, site := range []string{"fill", "ext", "write"} {
-			sp := &Spec{Name: "c15-" + site + "-debug-nil", Refresh: rf, Q: -1, DebugNil: true}
+			sp := &Spec{Name: "c15-" + site + "-debug-nil", Refresh: rf, Q: -1, DebugNil: true, Notifier: true}
 			sp.Bars = []BarSpec{{Total: 5}, {Total: 5}}
 			sp.Main = []Op{{K: "add", B: 0}, {K: "add", B: 1}}
 			for i := 0; i < 2; i++ {
